@@ -433,7 +433,10 @@ class PurityWorld:
                 # event of this call, each time on a private copy of the object but on the
                 # caller's real arrays; heap and parameters are checked after each crash
                 excs = {"KeyboardInterrupt": InjectedInterrupt, "MemoryError": InjectedMemoryError}[itr["exc"]]
-                step = max(1, n_lines // int(itr.get("max_points", 400)))
+                # bounded, deterministic budget: all points for short calls, a thinning
+                # grid for long ones (each point costs one traced execution of the call)
+                points = min(int(itr.get("max_points", 400)), max(12, 150000 // max(1, n_lines)))
+                step = max(1, n_lines // points)
                 for k in range(1, n_lines + 1, step):
                     try:
                         call, target = sweep()
@@ -585,6 +588,28 @@ class PurityWorld:
         if len(m["fits"]) > 1 and any(f["ok"] for f in m["fits"][:-1]):
             self.refit_vs_twin(name, op)
 
+    def comparable(self, name, args):
+        """Two executions of a CUR-family selector can only be compared where the scores
+        are well defined: rank(X) above selections + k (beyond that the residual is
+        rounding noise and ARPACK's answer depends on its hidden restart state)."""
+        m = self.meta[name]
+        kind = m["kind"]
+        if kind not in SELECTORS or SELECTORS[kind][1] not in ("CUR", "PCovCUR"):
+            return True
+        try:
+            obj = self.objs[name]
+            ref = args.get("X") or (args.get("__pos__") or [None])[0]
+            X = np.asarray(self.heap.pristine(ref["$h"]), dtype=float)
+            sv = np.linalg.svd(X, compute_uv=False)
+            rank = int(np.sum(sv > sv[0] * max(X.shape) * 2.2e-16 * 16)) if sv.size and sv[0] > 0 else 0
+            need = int(getattr(obj, "n_selected_", 0)) + int(getattr(obj, "k", 1)) + 1
+            ok = rank >= need
+        except Exception:  # noqa: BLE001
+            ok = False
+        if not ok:
+            self.count("selection_not_well_defined_skipped")
+        return ok
+
     # ---- clause 3: refit == fresh twin
     def twin(self, name, op):
         m = self.meta[name]
@@ -612,6 +637,9 @@ class PurityWorld:
         m = self.meta[name]
         obj = self.objs[name]
         kind = m["kind"]
+        m["twin"] = None
+        if not self.comparable(name, op["args"]):
+            return
         t = self.twin(name, op)
         if t is None or t[1] is not None:
             self.count("twin_raised")
@@ -699,6 +727,7 @@ class PurityWorld:
         m["reads"][tag] = res
         if meth == "fit_transform":
             m["fits"].append({"args": op["args"], "ok": True, "env": op.get("env")})
+        if meth == "fit_transform" and self.comparable(name, op["args"]):
             # fit_transform equals fit followed by transform (fresh twin, same environment seeds)
             try:
                 tw = get_class(kind)(**self.resolve(m["params"], fresh=True))
@@ -803,6 +832,8 @@ class PurityWorld:
             for other in names[1:]:
                 self.count("repeat_pairs")
                 ma, mb = self.meta[base], self.meta[other]
+                if not self.comparable(base, ma["fits"][-1]["args"]):
+                    continue
                 a, b = public_state(self.objs[base]), public_state(self.objs[other])
                 kind = ma["kind"]
                 skip = set(ma.get("repeat_skip", []))
